@@ -1,5 +1,90 @@
-import Rtcm.Model.Names
-import Rtcm.Model.Socket
+import Rtcm.Lemmas.Crc
+import Rtcm.Model.Message
 import Rtcm.Gen.Tables
+/-
+  C08 — CRC-24Q is computed correctly and all guaranteed-detectable damage is rejected.
+  Helper lemmas live in `Rtcm/Lemmas/Crc.lean`; this file holds the property statements.
+-/
 namespace Rtcm
+
+/-- The checksum helper returns the CRC-24Q remainder (generator 0x1864CFB, zero initial value,
+    most significant bit first, no final XOR) of every byte string: the remainder of
+    `message · x^24` under schoolbook GF(2) long division (`polyModAux`), for every length. -/
+theorem C08_crc_is_remainder (m : Bytes) :
+    calcCrc24q m = polyModAux (8 * m.length) (bytesToNat m <<< 24) ∧ calcCrc24q m < 2 ^ 24 :=
+  ⟨calcCrc24q_spec m, calcCrc24q_lt m⟩
+
+/-- the remainder is characterised independently of any algorithm: it has degree < 24 and differs
+    from `message · x^24` by a GF(2)-combination of shifted generators; and it is the only such number -/
+theorem C08_remainder_characterisation (m : Bytes) :
+    (∃ qs : List Nat, bytesToNat m <<< 24 = xorShifts qs ^^^ calcCrc24q m)
+    ∧ ∀ (qs : List Nat) (r : Nat), r < 2 ^ 24 → (∀ i ∈ qs, i < 8 * m.length) →
+        bytesToNat m <<< 24 = xorShifts qs ^^^ r → r = calcCrc24q m := by
+  constructor
+  · obtain ⟨qs, _, he⟩ := polyModAux_congr (8 * m.length) (bytesToNat m <<< 24)
+    exact ⟨qs, by rw [calcCrc24q_spec]; exact he⟩
+  · intro qs r hr hq he
+    rw [calcCrc24q_spec, he, polyModAux_unique _ qs hq r hr]
+
+/-- so the value over a message with its checksum appended is zero … -/
+theorem C08_crc_self_zero (m : Bytes) : calcCrc24q (m ++ crc2bytes m) = 0 := crc_self_zero m
+
+/-- … and no other three bytes make it zero -/
+theorem C08_trailer_unique (x c : Bytes) (hc : c.length = 3) (h : calcCrc24q (x ++ c) = 0) :
+    c = crc2bytes x := crc_trailer_unique x c hc h
+
+/-- With validation on, the static parser rejects with a parse error every valid frame altered by an
+    error pattern that does not itself check. -/
+theorem C08_parse_rejects (T : Tables) (f e : Bytes) (v l : Nat) (hlen : f.length = e.length)
+    (hvalid : calcCrc24q f = 0) (hv : v &&& T.valcksum ≠ 0) (hdet : calcCrc24q e ≠ 0) :
+    parse T (xorBytes f e) v l = .lib .parse := by
+  unfold parse
+  rw [if_pos ⟨hv, by rw [crc_damaged f e hlen hvalid]; exact hdet⟩]
+
+/-- one flipped bit, at every position and for every frame length -/
+theorem C08_rejects_single_bit (T : Tables) (f e : Bytes) (v l s : Nat) (hlen : f.length = e.length)
+    (hvalid : calcCrc24q f = 0) (hv : v &&& T.valcksum ≠ 0) (he : bytesToNat e = 1 <<< s) :
+    parse T (xorBytes f e) v l = .lib .parse :=
+  C08_parse_rejects T f e v l hlen hvalid hv (detect_single e s he)
+
+/-- any error burst of up to 24 bits (`E = B · x^s` with `0 < B < 2^24`) -/
+theorem C08_rejects_burst (T : Tables) (f e : Bytes) (v l B s : Nat) (hlen : f.length = e.length)
+    (hvalid : calcCrc24q f = 0) (hv : v &&& T.valcksum ≠ 0)
+    (hB0 : B ≠ 0) (hB : B < 2 ^ 24) (he : bytesToNat e = B <<< s) :
+    parse T (xorBytes f e) v l = .lib .parse :=
+  C08_parse_rejects T f e v l hlen hvalid hv (detect_burst e B s hB0 hB he)
+
+/-- any odd number of flipped bits (in particular three) -/
+theorem C08_rejects_odd (T : Tables) (f e : Bytes) (v l : Nat) (hlen : f.length = e.length)
+    (hvalid : calcCrc24q f = 0) (hv : v &&& T.valcksum ≠ 0)
+    (hodd : parity (8 * e.length) (bytesToNat e) = true) :
+    parse T (xorBytes f e) v l = .lib .parse :=
+  C08_parse_rejects T f e v l hlen hvalid hv (detect_odd e hodd)
+
+/-- two flipped bits at any distance that fits a maximal frame (1029 bytes = 8232 bits) -/
+theorem C08_rejects_double_bit (T : Tables) (f e : Bytes) (v l s d : Nat) (hlen : f.length = e.length)
+    (hvalid : calcCrc24q f = 0) (hv : v &&& T.valcksum ≠ 0)
+    (hd1 : 1 ≤ d) (hd : d ≤ 8231) (he : bytesToNat e = (1 ^^^ (1 <<< d)) <<< s) :
+    parse T (xorBytes f e) v l = .lib .parse :=
+  C08_parse_rejects T f e v l hlen hvalid hv (detect_double e s d hd1 hd he)
+
+/-- With validation off, the checksum bytes do not influence the parse result. -/
+theorem C08_novalidate_ignores_crc (T : Tables) (h p c₁ c₂ : Bytes) (v l : Nat)
+    (hh : h.length = 3) (h1 : c₁.length = 3) (h2 : c₂.length = 3) (hv : v &&& T.valcksum = 0) :
+    parse T (h ++ p ++ c₁) v l = parse T (h ++ p ++ c₂) v l := by
+  unfold parse
+  have e : ∀ c : Bytes, c.length = 3 →
+      ((h ++ p ++ c).drop 3).take ((h ++ p ++ c).length - 3 - 3) = p := by
+    intro c hc
+    have hd : h.drop 3 = [] := List.drop_eq_nil_of_le (by omega)
+    rw [List.append_assoc, List.drop_append, hd, hh]
+    simp [hc, hh]
+  simp only [hv, ne_eq, not_true_eq_false, false_and, if_false, e c₁ h1, e c₂ h2]
+
+/-! non-vacuity: a concrete valid frame, a one-bit and a two-bit error pattern of its length -/
+example : calcCrc24q [0xd3, 0, 2, 0xff, 0xf0, 13, 77, 124] = 0 := by decide +kernel
+example : bytesToNat [0, 0, 0, 0x10, 0, 0, 0, 0] = 1 <<< 36 := by decide +kernel
+example : bytesToNat [0, 0x80, 0, 0, 0, 0, 0, 1] = (1 ^^^ (1 <<< 55)) <<< 0 := by decide +kernel
+example : parity (8 * 8) (bytesToNat [1, 0, 0, 0x10, 0, 0, 0, 4]) = true := by decide +kernel
+
 end Rtcm
